@@ -20,9 +20,20 @@ int g_empty;                  /* out: the empty result was returned */
 int g_isq;                    /* split_cmdargs: the token being scanned is a quoted one (set by an injected ghost statement) */
 int g_tq, g_tq1, g_last_q;    /* out: quoted flag of token g_t / g_t + 1 / of the last token */
 
+#ifdef WITNESS_MODE
+/* concretisation / replay / bounded fallback runs (small concrete sizes): the whole recorded sequence is kept, so that the harness can
+ * compare it with a directly computed reference without relying on injected ghost statements */
+#define C19_REC_MAX 16
+size_t g_all_s[C19_REC_MAX], g_all_l[C19_REC_MAX];
+size_t g_all_n;
+#endif
 static inline void g_rec(const char *p, ptrdiff_t n)
 {
     size_t off = (size_t)(p - g_data0);
+#ifdef WITNESS_MODE
+    if (g_all_n < C19_REC_MAX) { g_all_s[g_all_n] = off; g_all_l[g_all_n] = (size_t)n; }
+    g_all_n++;
+#endif
     if (g_ntok == g_t) { g_ts = off; g_tl = (size_t)n; g_tq = g_isq; }
     if (g_t != (size_t)-1 && g_ntok == g_t + 1) { g_ts1 = off; g_tq1 = g_isq; }
     g_last_s = off;
